@@ -4,6 +4,8 @@
 # the unpatched library, restore the worktree. Appends one line per seed to /verif/seeded/CONFIRM.log.
 exec 9>/tmp/seed_confirm.lock; flock -n 9 || { echo 'another seed_confirm is running (shared worktree): refusing to start'; exit 3; }
 W=/tmp/wt_mut; L=$W/_build/gnu_12.2_cxx11_64_relwithdebinfo; L0=/repo/_build/gnu_12.2_cxx11_64_relwithdebinfo
+# the scratch worktree is removed at the end of a session (git -C /repo worktree remove --force /tmp/wt_mut); recreate it with a full build when missing
+if [ ! -d $W ]; then git -C /repo worktree add --detach $W HEAD && (cd $W && cmake -G Ninja -B _build -DCMAKE_BUILD_TYPE=RelWithDebInfo -DTBB_TEST=ON > /dev/null && nice -n 10 cmake --build _build -j12 > /tmp/seedc_initial_build.log 2>&1) || exit 4; fi
 for id in "$@"; do
   S=/verif/seeded/$id; cd $W && git checkout -q -- . && git apply $S/patch.diff || { echo "$id: patch does not apply" >> /verif/seeded/CONFIRM.log; continue; }
   nice -n 10 cmake --build _build -j8 > /tmp/seedc_$id.build.log 2>&1; brc=$?
